@@ -101,4 +101,28 @@ Section C02.
                 (crep_idle _ _ _ _) Hne HJ Hs Hf) as (c' & junk & Hd & Hc' & Hj1 & Hj2).
     exists c', junk. split; [exact Hd|]. split; [inversion Hc'; reflexivity|]. split; assumption.
   Qed.
+
+  Lemma resync_buffered_l limit sizehint (u rest : bytes) (fills : list bytes) fuel :
+    sl + 1 <= limit ->
+    find0 sep (u ++ sep) = Some (length u) -> safe sep (limit - 1 - sl) rest ->
+    concat fills = u ++ sep ++ rest -> length (concat fills) < fuel ->
+    fills_fit (bru_framer sep limit keep_end dec) sizehint fuel (bcinit _) fills ->
+    exists c' junk,
+      bcfills (bru_framer sep limit keep_end dec) sizehint fuel (bcinit _) fills =
+        (c', junk ++ fst (spec_events sep keep_end dec rest)) /\
+      junk <> [] /\ (limit < length u + sl -> In (RErr ELimit) junk).
+  Proof.
+    intros Hlim Hu Hs Hc Hf Hfit.
+    assert (Hidle : brep sep limit keep_end dec (bcinit (bru_framer sep limit keep_end dec)) [])
+      by (apply (brep_idle sep limit keep_end dec None 0); exact I).
+    assert (HJ : resync_at sep ([] ++ concat fills) rest (length u)).
+    { cbn [app]. rewrite Hc. split.
+      - rewrite app_assoc. apply find0_app_l. exact Hu.
+      - rewrite app_assoc. rewrite skipn_app_le by (rewrite app_length; lia).
+        rewrite <- app_length. rewrite skipn_all. reflexivity. }
+    pose proof (fills_fit_run sep limit keep_end dec sizehint sep_ne Hlim fuel fills _ [] Hidle Hf Hfit) as Hfr.
+    destruct (resync_rounds sep limit keep_end dec sizehint sep_ne Hlim fuel fills _ [] rest (length u) Hidle Hfr HJ Hs Hf)
+      as (c' & junk & Hd & _ & Hj1 & Hj2).
+    exists c', junk. split; [exact Hd|]. split; assumption.
+  Qed.
 End C02.
